@@ -451,8 +451,9 @@ def ordered_map_valid_stream(data_field, map_field, result_field,
         for sm_start, sm_end in sub_map_chunks:
             d_limits = get_valid_value_extents(map_, sm_start, sm_end, invalid)
             if d_limits[0] == invalid:
-                # no unfiltered values in this chunk so just assign empty entries to the result field
-                result_data.fill(0)
+                # no unfiltered values in this sub-chunk so just assign empty entries to its part
+                # of the result buffer (the rest of the buffer belongs to other sub-chunks)
+                result_data[sm_start:sm_end] = empty_value
             else:
                 values = data_field.data[d_limits[0]:d_limits[1]+1]
                 _ = ordered_map_valid_partial(values, map_, sm_start, sm_end, d_limits[0],
